@@ -13,11 +13,14 @@
                               nothing is left unread and nothing is over-read (store path, misc path, noreply variants);
                               with the specification server as the peer this gives St .. [] after every one-command
                               operation (Properties/C05.v, the c05_e2e theorems)
-   PARTIAL: exact consumption is proved for the line-per-command exchanges; for retrievals (VALUE blocks) and for
+   c01_exact_fetch          the same for retrievals: a reply made of VALUE blocks closed by END, for ANY peer that
+                              answers that way, is read item by item, each data block by its announced length - nothing
+                              is left unread and nothing is over-read, whatever bytes the data contains
+   PARTIAL: exact consumption is proved for the line-per-command exchanges and for retrievals; for
    calls that reconnect first it is c03_sequences' hypothesis quiet_run and is checked on the implementation with
    per-byte ownership tags (every operation x fault plan x segmentation, followed by further calls). *)
 From Coq Require Import ZArith List Bool.
-From PM Require Import Lib.Py Model.World Model.Readers Model.Client Proofs.Hoare Proofs.C10Proof Proofs.C01Proof Proofs.Quiet
+From PM Require Import Lib.Py Model.World Model.Readers Model.Client Proofs.Hoare Proofs.C10Proof Proofs.C01Proof Proofs.Quiet Proofs.QuietFetch
                        Spec.Proto Spec.Server Proofs.C05Proof Gen.Handlers.
 Import ListNotations.
 Open Scope Z_scope.
@@ -71,3 +74,10 @@ Theorem c01_exact_noreply : forall P peer c sid p p' cmds, peer p (concat cmds) 
   hoare (St P sid p []) (misc_cmd P peer c cmds true []) (fun _ => St P sid p' []) (fun _ _ => False).
 Proof. exact Quiet.misc_cmd_noreply_quiet. Qed.
 Print Assumptions c01_exact_misc.
+Theorem c01_exact_fetch : forall P peer c sid p p' name wc remapped cmd items,
+  peer p cmd = (p', items_bytes wc items) -> Forall item_wf items -> c_ignore_exc c = false -> h_fetch c = BaseException ->
+  hoare (St P sid p []) (fetch_io P peer c name wc remapped cmd)
+        (fun res w => read_items c wc remapped items [] = Ok res /\ St P sid p' [] w)
+        (fun e w => read_items c wc remapped items [] = Raise e /\ w_sock w = None).
+Proof. exact QuietFetch.fetch_io_quiet. Qed.
+Print Assumptions c01_exact_fetch.
